@@ -117,6 +117,12 @@ func ruleJournalWrite(p *Prog, r *Report, rule string) {
 }
 
 func runC04(p *Prog, r *Report) {
+	if want("C04.38") {
+		ruleWriteOptionsForwarded(p, r, "C04.38")
+	}
+	if want("C04.37") {
+		ruleWriteBlockErrorStops(p, r, "C04.37")
+	}
 	if want("C04.36") {
 		ruleRecordBytesFresh(p, r, "C04.36")
 	}
